@@ -87,6 +87,10 @@ partial def toTree (H : Hash) : Sexp → Option Node
   | .list [.atom "L", .atom h] => (unhex h).map .leaf
   | .list [.atom "Z", d] => (atomNat d).map (zeroNode H)
   | .list [.atom "P", l, r] => do pure (.pair (← toTree H l) (← toTree H r))
+  | .list [.atom "F", d, b] => do
+    -- `subtree_fill_to_depth`: the bottom node doubled `d` times
+    let b ← toTree H b
+    pure ((List.range (← atomNat d)).foldl (fun acc _ => .pair acc acc) b)
   | _ => none
 
 def toKey : Sexp → Option Key
